@@ -181,6 +181,9 @@ pub fn install_panic_hook() {
         } else {
             "panic".to_string()
         };
+        if msg == EXPECTED_PANIC {
+            return;
+        }
         let loc = info.location().map(|l| format!("{}:{}", l.file(), l.line())).unwrap_or_default();
         let full = format!("{msg} @ {loc}");
         let _ = PANIC_MSG.try_with(|p| {
@@ -193,6 +196,15 @@ pub fn install_panic_hook() {
             eprintln!("panic: {full}");
         }
     }));
+}
+
+/// Message of panics the harness raises on purpose (an application that panics while it holds something of
+/// the SUT): the hook ignores them.
+pub const EXPECTED_PANIC: &str = "dsim: application panics on purpose";
+
+/// Runs `f`, which is expected to panic with `EXPECTED_PANIC`, and swallows that panic.
+pub fn with_expected_panic<F: FnOnce()>(f: F) {
+    let _ = std::panic::catch_unwind(std::panic::AssertUnwindSafe(f));
 }
 
 pub fn take_panic() -> Option<String> {
